@@ -250,6 +250,18 @@ def matrices():
                 continue
             out.append(f"{ch}{i}\n\ncode  <b> &amp; *x*\n\tTab\n\n{ch}\n")
     out.append("    indented\n\n      more\n")
+    # leaves whose rendering consults per-document state left by EARLIER leaves (labels, ids, names used twice): every leaf still appears once
+    out += [
+        "$$\na = 1\n$$ (eq)\n\n$$\nb = 2\n$$ (eq)\n\n$$\nc = 3\n$$ (eq)\n\n$$\nd = 4\n$$ (other)\n",
+        "> $$\n> a\n> $$ (q)\n\n- $$\n  b\n  $$ (q)\n",
+        "\\begin{equation}\na\n\\end{equation}\n\n\\begin{equation}\na\n\\end{equation}\n",
+        "$x$ $x$ $$y$$ $$y$$\n\n$$\ny\n$$\n\n$$\ny\n$$\n",
+        "![a](i.png){#im}\n\n![b](j.png){#im}\n\n`c`{#im} `c`{#im} [s]{#im}\n",
+        "# T\n\n# T\n\n## T\n\n## T\n\ntext\n\n---\n\n---\n\ntext\n",
+        "(t)=\npara one\n\n(t)=\npara two\n\n(t)=\n```\ncode\n```\n",
+        "term\n: def `c`\n\nterm\n: def `c`\n",
+        "<b>x</b> <b>x</b>\n\n<div>d</div>\n\n<div>d</div>\n",
+    ]
     return out
 
 
